@@ -1,17 +1,20 @@
 #!/bin/bash
-# seedall.sh [jobs]: regression of the whole machinery - every seeded change is applied to a scratch copy of /repo's HEAD and the check of the
-# property it breaks is run against that copy (VERIF_REPO), evidence and replays redirected (VERIF_OUT). Prints one line per seed.
-# NOTE: units are assembled under build/ with fixed names, so seeds are run one after the other.
+# seedall.sh [jobs]: regression of the whole machinery - every seeded change is applied to a scratch copy of /repo's HEAD and the check of
+# the property it breaks is run against that copy (VERIF_REPO), with evidence, replays and the assembled units redirected (VERIF_OUT,
+# VERIF_BUILD), so that it can run next to normal work and several seeds at a time. Prints one line per seed.
 cd /verif
-OUT=$(mktemp -d /tmp/seedall-out.XXXXXX)
-for d in seeded/*/; do
-  s=$(basename $d); P=$(python3 -c "import json;print(json.load(open('seeded/$s/meta.json'))['breaks_property'])")
+JOBS=${1:-3}
+run_one() {
+  s=$1
+  P=$(python3 -c "import json;print(json.load(open('seeded/$s/meta.json'))['breaks_property'])")
   W=$(mktemp -d /tmp/seedall.XXXXXX)
-  git -C /repo archive HEAD | tar -x -C $W
-  if ! (cd $W && patch -p1 -s < /verif/seeded/$s/patch.diff >/dev/null 2>&1); then echo "$s $P PATCH-DOES-NOT-APPLY"; rm -rf $W; continue; fi
-  O=$(VERIF_REPO=$W VERIF_OUT=$OUT ./check $P quick 2>&1); rc=$?
+  mkdir -p $W/repo $W/out $W/build
+  git -C /repo archive HEAD | tar -x -C $W/repo
+  if ! (cd $W/repo && patch -p1 -s < /verif/seeded/$s/patch.diff >/dev/null 2>&1); then echo "$s $P PATCH-DOES-NOT-APPLY"; rm -rf $W; return; fi
+  O=$(VERIF_REPO=$W/repo VERIF_OUT=$W/out VERIF_BUILD=$W/build ./check $P quick 2>&1); rc=$?
   how=$(echo "$O" | grep -m1 "failed obligation" | sed 's/^ *failed obligation //' | cut -c1-110)
   echo "$s $P rc=$rc $how"
   rm -rf $W
-done
-rm -rf $OUT
+}
+export -f run_one
+ls seeded | xargs -P $JOBS -I{} bash -c 'run_one {}'
